@@ -64,7 +64,7 @@ def runBtor2Case (line : String) : String × String :=
   let fs := fields line
   if field fs "v" != "" then runValidatorCase (field fs "v") else
   let ls := field fs "ls" == "1"
-  let full := unhex (field fs "d")
+  let full := dataField (field fs "d")
   let (data, fault) := match (field fs "k").toNat? with
     | some k => (full.take k, true)
     | none => (full, false)
